@@ -32,6 +32,10 @@ fn main() {
         "c17" => drivers::c17::drive(&rest),
         "c18" => drivers::c18::drive(&rest),
         "c19" => drivers::c19::drive(&rest),
+        "c20" => drivers::c20::drive(&rest),
+        "c20child" => drivers::c20::child(&rest),
+        "c20macro-gen" => drivers::c20::macro_gen(&rest),
+        "c20macro-cmp" => drivers::c20::macro_cmp(&rest),
         "pipe" => drivers::pipe::drive(&rest),
         "c15" => drivers::c15::drive(&rest),
         "c16" => drivers::c16::drive(&rest),
